@@ -122,8 +122,25 @@ def py_encode(fields):
     return out
 
 
+def boundary_ni_script(rng, name):
+    """node information at the format's limits: exactly 6 / 7 / 8 addresses per family in the own-address list and in peer entries"""
+    ops = []
+
+    def socks(n4, n6):
+        l = ["4:%s:%d" % (rng.bytes(4).hex(), rng.below(65536)) for _ in range(n4)] + ["6:%s:%d" % (rng.bytes(16).hex(), rng.below(65536)) for _ in range(n6)]
+        rng.shuffle(l)
+        return l
+    for (a4, a6) in ((7, 0), (0, 7), (7, 7), (8, 8), (6, 7), (8, 0), (0, 8), (1, 7), (7, 1), (6, 6)):
+        for (p4, p6) in ((7, 7), (a6, a4), (0, 0)):
+            peers = ["%s@%s" % (rng.bytes(16).hex(), ",".join(socks(p4, p6)) or "-"), "-@%s" % (",".join(socks(a4, a6)) or "-")]
+            ops.append("ni-rt id=%s peers=%s claims=%s timeout=%d addrs=%s" % (rng.bytes(16).hex(), ";".join(peers), "0a000000/8", rng.choice([300, 60]),
+                                                                             ",".join(socks(a4, a6)) or "-"))
+    return Script(name, ops, {"suite": "codec"})
+
+
 def _gen_base(tier, rng):
     thorough = tier == "thorough"
+    yield boundary_ni_script(rng.fork("boundary"), "ni-boundary")
     ops = []
     for _ in range(4000 if thorough else 300):
         ni = rand_ni(rng)
